@@ -73,6 +73,11 @@ def step (t : List String) : String :=
   | ["resample", len, z] => match len.toInt?, parseRat? z with
       | some len, some z => s!"{(resampleOut len z).num}"
       | _, _ => "bad-op"
+  | ["polar", m, n] => match m.toInt?, n.toInt? with
+      | some m, some n =>
+          let shp (ax : Int) : Int := if ax = polarRhoAxis then polarRhoLen m n else polarPhiLen m n
+          s!"{shp 0} {shp 1} {polarRhoLen m n}"
+      | _, _ => "bad-op"
   | _ => "bad-op"
 
 def main : IO Unit := mainLoop step
